@@ -141,6 +141,50 @@ def check_mutator(ctx, f, pub, table):
             d = strip(d[5][0], through_calls=False)  # the publication helper takes the message payload: look inside One(..)
         v = diff_agg_variant(d)
         where = b.line_at((pblk, 10 ** 6))
+        if v is None and d[0] == "phi":
+            # the published diff is chosen in branches (`if index == 0 { PopFront } else if .. { PopBack } else { Remove { index } }`):
+            # every alternative must be what `apply` does for the mutation performed, or an equivalent under a dominating
+            # equality that was established on the contents *before* the mutation
+            alts = [x for x in find_all(d, lambda y: diff_agg_variant(y) is not None)]
+            doms0 = [(mb, mt, m) for mb, mt, m in muts if b.dominates(mb, pblk)]
+            if alts and doms0:
+                mb, mt, m = doms0[-1]
+                bad_alt = None
+                und_alt = None
+                for alt in alts:
+                    av = alt[3]
+                    ent = table.get(av)
+                    if ent and ent[0] == m:
+                        continue
+                    aloc = alt[6]
+                    facts = conds.dominating_facts(b, aloc[0]) if aloc else []
+                    is_idx = lambda e: strip(e)[0] == "param" and strip(e)[1] >= 2
+                    if m in ("remove", "insert") and av in ("PopFront", "PushFront"):
+                        if conds.cmp_holds(facts, "Eq", is_idx, lambda e: is_const_int(e, 0)):
+                            continue
+                        bad_alt = "`%s` although nothing establishes index == 0" % av
+                    elif m in ("remove", "insert") and av in ("PopBack", "PushBack"):
+                        # index (+1) == len, with the length read before the mutation
+                        lens = []
+                        for s_, t_, fct in facts:
+                            if fct[0] == "cmp" and fct[1] == "Eq":
+                                for side in (fct[2], fct[3]):
+                                    lens += find_all(side, lambda y: y[0] == "call" and ecall_matches(y, r"::len$"))
+                        if not lens:
+                            und_alt = "`%s` under an unrecognised guard" % av
+                        elif any(c_[4] is not None and not b.dominates(c_[4][0], mb) for c_ in lens):
+                            bad_alt = "`%s` when the index equals a length that is read *after* the `%s` was applied (one less / more than before): the wrong element is reported" % (av, m)
+                        else:
+                            continue
+                    else:
+                        bad_alt = "`VectorDiff::%s` for a `%s`" % (av, m)
+                if bad_alt:
+                    ctx.violated("R05.1", f, "variant<->method", where, "`%s` applies `%s` to the contents but can publish %s: replicas diverge" % (f.path, m, bad_alt))
+                elif und_alt:
+                    ctx.undecided("R05.1", f, "diff-variant", where, und_alt)
+                else:
+                    ctx.holds("R05.1", f, "table-agreement", where, "every alternative of the published diff is `%s` or an equivalent under an equality established before the mutation" % m)
+                continue
         if v is None:
             ctx.undecided("R05.1", f, "diff-variant", where, "published diff is not a literal VectorDiff aggregate: %s" % fmt(d, 4))
             continue
